@@ -85,7 +85,7 @@ def parseLctHeader (d : List Nat) : Out LctHeader :=
   | none => .err                                   -- "Fail to read lct header size"
   | some v =>
     let len := v * 4                               -- (v as usize) << 2
-    if len > d.length then .err else
+    if len > d.length ∨ d.length < 4 then .err else   -- `|| data.len() < 4`: repair of D1 (was a panic in `data[3]`)
     (idx d 3).bind fun cp =>
     (idx d 0).bind fun flags1 =>
     (idx d 1).bind fun flags2 =>
@@ -124,7 +124,7 @@ def getExtLoop : Nat → List Nat → Nat → Out (Option (List Nat))
     if e.length ≥ 4 then
       (idx e 0).bind fun het =>
       (if het ≥ 128 then (.ok 4 : Out Nat)
-        else (idx e 1).bind fun l => .ok ((l * 4) % 256)) |>.bind fun hel =>   -- `(l << 2)` on a u8 (D7)
+        else (idx e 1).bind fun l => .ok (l * 4)) |>.bind fun hel =>   -- `(l as usize) << 2`: repair of D7 (was `(l << 2)` on a u8)
       if hel = 0 ∨ hel > e.length then .err else
       if het = ext then (slice e 0 hel).bind fun r => .ok (some r)
       else (slice e hel e.length).bind fun rest => getExtLoop fuel rest ext
